@@ -87,6 +87,20 @@ class RatFun(object):
     def same(self, o):
         return (self.n * o.d - o.n * self.d).is_zero()
 
+    def rename(self, m):
+        """the same function with symbols renamed (used to identify two symbols known to be equal on a path)"""
+        def rp(p):
+            t = {}
+            for mono, c in p.t.items():
+                d = {}
+                for s_, pw in mono:
+                    s2 = m.get(s_, s_)
+                    d[s2] = d.get(s2, 0) + pw
+                k = tuple(sorted(d.items()))
+                t[k] = t.get(k, 0) + c
+            return Poly(t)
+        return RatFun(rp(self.n), rp(self.d))
+
     def __repr__(self):
         if self.d == Poly.const(1):
             return repr(self.n)
